@@ -327,7 +327,7 @@ func genTapCb(r *Rng, n int, w *bufio.Writer) {
 		cb := tree.LeafMerkleProofs[li].ToControlBlock(key)
 		bs, _ := cb.ToBytes()
 		script := ls[li].script
-		switch i % 10 {
+		switch i % 12 {
 		case 0: // genuine
 		case 1, 2: // one byte corrupted
 			p := r.Intn(len(bs))
@@ -353,6 +353,29 @@ func genTapCb(r *Rng, n int, w *bufio.Writer) {
 			} else {
 				prog = append([]byte{}, prog...)
 				prog[r.Intn(32)] ^= byte(1 + r.Intn(255))
+			}
+		case 10: // output-key argument of another length: same integer zero-padded, or unrelated bytes
+			switch r.Intn(5) {
+			case 0:
+				prog = append([]byte{0}, prog...)
+			case 1:
+				prog = append(make([]byte, 8), prog...)
+			case 2:
+				prog = r.Bytes(31)
+			case 3:
+				prog = r.Bytes(33)
+			default:
+				prog = append(append([]byte{}, prog...), 0)
+			}
+		case 11: // an output key whose x starts with 0x00, presented without its leading zero bytes
+			for tries := 0; tries < 20000 && prog[0] != 0; tries++ {
+				key = tapRndPriv(r).PubKey()
+				prog = schnorr.SerializePubKey(taproot.ComputeTaprootOutputKey(key, root[:]))
+			}
+			cb = tree.LeafMerkleProofs[li].ToControlBlock(key)
+			bs, _ = cb.ToBytes()
+			if r.Chance(75) {
+				prog = bytes.TrimLeft(prog, "\x00")
 			}
 		case 9: // field prime boundary for the key: p-1, p, p+1 style values
 			x, _ := hex.DecodeString("fffffffffffffffffffffffffffffffffffffffffffffffffffffffefffffc2f")
